@@ -71,7 +71,7 @@ func CoqBytes(b []byte) string {
 	if len(parts) == 1 && !strings.HasPrefix(parts[0], "blit_bytes") {
 		return parts[0]
 	}
-	return "(" + strings.Join(parts, " ++ ") + ")"
+	return "(" + strings.Join(parts, " ++ ") + ")%list"
 }
 
 // PushLens are the data lengths on both sides of every push-form boundary.
